@@ -5,7 +5,7 @@
    [reflexivity] here. *)
 From Coq Require Import ZArith List.
 Import ListNotations.
-From DTN Require Import Consts SpecScf.
+From DTN Require Import Consts SpecScf Scf.
 Open Scope Z_scope.
 
 Lemma scf_constraints_ok :
@@ -40,4 +40,17 @@ Lemma scf_storage_ok :
   pkg_storage__calcExpirationDate__ops = scf_expiry_ops
   /\ pkg_storage__Store_DeleteExpired__ops = scf_delete_expired_ops
   /\ pkg_bpv7__HopCountBlock_IsExceeded__ops = scf_hop_ops.
+Proof. repeat split; reflexivity. Qed.
+
+(* the block processing control flags the block loop of the model tests (the scf_fl_ constants of Model/Scf.v) *)
+Lemma scf_block_flags_ok :
+  pkg_bpv7__ReplicateBlock = Z.of_N scf_fl_replicate
+  /\ pkg_bpv7__StatusReportBlock = Z.of_N scf_fl_report
+  /\ pkg_bpv7__DeleteBundle = Z.of_N scf_fl_delete
+  /\ pkg_bpv7__RemoveBlock = Z.of_N scf_fl_remove.
+Proof. repeat split; reflexivity. Qed.
+
+Lemma scf_receive_ok :
+  pkg_routing__Core_receive__ops = scf_receive_ops
+  /\ pkg_routing__Core_receive__lits = scf_receive_lits.
 Proof. repeat split; reflexivity. Qed.
